@@ -11,8 +11,10 @@ long yv_clock_polls = 0, yv_clock_jump_at = 0;
 long long yv_clock_jump_ns = 0;
 static long long vnow = 1000000000LL;
 
+int yv_clock_last_id = -1;     /* which clock libyara's stopwatch asked for (a CPU-time clock of the whole process would couple the timeouts of concurrent scans) */
 int yv_clock_gettime(clockid_t id, struct timespec* ts) {
 #undef clock_gettime
+  yv_clock_last_id = (int) id;
   if (!yv_clock_virtual) return clock_gettime(id, ts);
   yv_clock_polls++;
   vnow += 1000; /* 1 microsecond per poll */
